@@ -1,4 +1,5 @@
 import CalVerif.Lemmas.Xlsb
+import CalVerif.Props.C05
 /-! # C03 — XLSB: every cell record reads back at its position with its value
 
     Property theorems only (helper lemmas: `Lemmas/Xlsb.lean`; model: `Model/Xlsb.lean`, `Model/Range.lean`;
@@ -69,6 +70,109 @@ theorem sheet_data_roundtrip (ctx : Ctx) (data : List Framed) (endWide : Bool) (
       = .ok (specCells ctx (data.map (·.item)) row) :=
   readCells_data ctx endWide endLenW post data f row hok hf
 
+/-! ## whole records lists -/
+
+/-- a whole part: the framed records (every id and length width chosen per record) are read back as the same
+    list of `(id, payload)` -/
+theorem record_roundtrip (l : List Framed) (h : ∀ x ∈ l, x.Fits) :
+    records (encodeItems l) = .ok (l.map fun x => (x.id, x.pay)) := by
+  have := encodeItems_length_ge l
+  exact recordsGo_enc l _ h (by omega)
+
+/-! ## whole sheets -/
+
+/-- inserting any record whose id the cell loop does not interpret (1- or 2-byte id, 1..4-byte length, any
+    payload) anywhere in the sheet data — before a row header, between two cells of a row, before
+    BrtEndSheetData — changes nothing: no neighbouring cell is shifted or dropped -/
+theorem ignorable_records (ctx : Ctx) (pre1 pre2 : List Seg) (dims : Bytes) (dw : Bool) (dl : Nat) (bp : Bytes)
+    (bw : Bool) (bl : Nat) (d1 d2 : List Framed) (ew : Bool) (el : Nat) (post : Bytes)
+    (id : Nat) (p : Bytes) (wide : Bool) (lw : Nat)
+    (h1 : ∀ s ∈ pre1, s.OK 0x0094 bounds1) (h2 : ∀ s ∈ pre2, s.OK 0x0091 bounds2)
+    (hd : 16 ≤ dims.length ∧ dims.length < 268435456) (hb : bp.length < 268435456)
+    (hok : ∀ d ∈ d1 ++ d2, d.item.OK ctx)
+    (hid : id < 16384) (hni : interpretedId id = false) (hp : p.length < 268435456) :
+    decodeSheet ctx (sheetBytes pre1 dims dw dl pre2 bp bw bl (d1 ++ ⟨.raw id p, wide, lw⟩ :: d2) ew el post)
+      = decodeSheet ctx (sheetBytes pre1 dims dw dl pre2 bp bw bl (d1 ++ d2) ew el post) := by
+  have hok' : ∀ d ∈ d1 ++ ⟨.raw id p, wide, lw⟩ :: d2, d.item.OK ctx := by
+    intro d hd'
+    rcases List.mem_append.mp hd' with h | h
+    · exact hok d (List.mem_append_left _ h)
+    · rcases List.mem_cons.mp h with rfl | h
+      · exact ⟨hid, hni, hp⟩
+      · exact hok d (List.mem_append_right _ h)
+  rw [decodeSheet_enc ctx pre1 pre2 dims dw dl bp bw bl _ ew el post h1 h2 hd hb hok',
+    decodeSheet_enc ctx pre1 pre2 dims dw dl bp bw bl _ ew el post h1 h2 hd hb hok]
+  simp only [List.map_append, List.map_cons]
+  rw [specCells_insert_raw]
+
+/-- **C03, main theorem.** For every sheet part the encoder writes — any prologue (records and skipped blocks
+    around a BrtWsDim of at least 16 bytes), sheet data made of row headers, cell records of all eleven kinds
+    (constant or formula form) and ignorable records in any interleaving, every record framed with a 1- or 2-byte
+    id and a 1..4-byte length, BrtEndSheetData, then anything — whose cells lie in rows < 2^20 and columns < 2^14
+    with non-decreasing rows, the reader returns a range that
+    * is empty iff the sheet has no value cell,
+    * otherwise is exactly the bounding rectangle of the value cells (every cell inside, every side touched),
+    * holds at every absolute position the value of the (last) cell record addressing it, `Empty` elsewhere. -/
+theorem xlsb_sheet_roundtrip (ctx : Ctx) (pre1 pre2 : List Seg) (dims : Bytes) (dw : Bool) (dl : Nat) (bp : Bytes)
+    (bw : Bool) (bl : Nat) (data : List Framed) (ew : Bool) (el : Nat) (post : Bytes)
+    (h1 : ∀ s ∈ pre1, s.OK 0x0094 bounds1) (h2 : ∀ s ∈ pre2, s.OK 0x0091 bounds2)
+    (hd : 16 ≤ dims.length ∧ dims.length < 268435456) (hb : bp.length < 268435456)
+    (hok : ∀ d ∈ data, d.item.OK ctx) (hS : GridSorted (specCells ctx (data.map (·.item)) 0)) :
+    ∃ r, decodeSheet ctx (sheetBytes pre1 dims dw dl pre2 bp bw bl data ew el post) = .ok r ∧ Range.Inv r ∧
+      (r.inner.length = 0 ↔ specCells ctx (data.map (·.item)) 0 = []) ∧
+      (∀ c ∈ specCells ctx (data.map (·.item)) 0, r.sr ≤ c.1 ∧ c.1 ≤ r.er ∧ r.sc ≤ c.2.1 ∧ c.2.1 ≤ r.ec) ∧
+      (specCells ctx (data.map (·.item)) 0 ≠ [] →
+        (∃ c ∈ specCells ctx (data.map (·.item)) 0, c.1 = r.sr) ∧ (∃ c ∈ specCells ctx (data.map (·.item)) 0, c.1 = r.er) ∧
+        (∃ c ∈ specCells ctx (data.map (·.item)) 0, c.2.1 = r.sc) ∧ (∃ c ∈ specCells ctx (data.map (·.item)) 0, c.2.1 = r.ec)) ∧
+      ∀ p q, r.valAt p q = (Range.lastAt (specCells ctx (data.map (·.item)) 0) p q).getD Val.empty := by
+  rw [decodeSheet_enc ctx pre1 pre2 dims dw dl bp bw bl data ew el post h1 h2 hd hb hok]
+  generalize specCells ctx (data.map (·.item)) 0 = S at hS ⊢
+  obtain ⟨r, hr⟩ := Range.fromSparse_of_pre S (sparsePre_of_gridSorted S hS)
+  obtain ⟨hinv, hemp⟩ := Range.inv_fromSparse S r hr
+  refine ⟨r, hr, hinv, hemp, ?_⟩
+  by_cases hne : S = []
+  · subst hne
+    refine ⟨fun c hc => (nomatch hc), fun h => absurd rfl h, ?_⟩
+    intro p q
+    rw [Range.fromSparse_untouched [] r hr p q (fun c hc => nomatch hc)]
+    rfl
+  · obtain ⟨_, hsr, her, hmem, hec, hsc, _⟩ := Range.fromSparse_spec S hne r hr
+    have hlast := gridSorted_le_last S hne hS
+    refine ⟨fun c hc => ⟨(hmem c hc).1, her ▸ hlast c hc, (hmem c hc).2.1, (hmem c hc).2.2⟩, fun _ => ⟨?_, ?_, ?_, ?_⟩, ?_⟩
+    · exact ⟨S.head hne, List.head_mem hne, hsr.symm⟩
+    · exact ⟨S.getLast hne, List.getLast_mem hne, her.symm⟩
+    · exact hsc (fun c hc => by have := (hS.2 c hc).2; unfold Range.U32; omega)
+    · exact hec
+    · intro p q
+      exact Range.fromSparse_spec_sorted S hne r hr (fun c hc => hlast c hc) p q
+
+/-- positions pairwise distinct: every cell of the logical sheet is read back at its position with its value -/
+theorem xlsb_cell_at (S : List (Nat × Nat × Val)) (r : Range.Rng Val)
+    (hv : ∀ p q, r.valAt p q = (Range.lastAt S p q).getD Val.empty)
+    (hdist : S.Pairwise (fun a b => ¬ (a.1 = b.1 ∧ a.2.1 = b.2.1))) :
+    ∀ c ∈ S, r.valAt c.1 c.2.1 = c.2.2 := by
+  intro c hc
+  obtain ⟨l1, l2, rfl⟩ := List.append_of_mem hc
+  rw [hv, Range.lastAt_append_cons l1 l2 c]
+  · rfl
+  · intro c' hc' hpos
+    have := List.pairwise_append.mp hdist
+    have h2 := (List.pairwise_cons.mp this.2.1).1 c' hc'
+    exact h2 ⟨hpos.1.symm, hpos.2.symm⟩
+
+/-- a position no cell record addresses reads as empty -/
+theorem xlsb_empty_elsewhere (S : List (Nat × Nat × Val)) (r : Range.Rng Val)
+    (hv : ∀ p q, r.valAt p q = (Range.lastAt S p q).getD Val.empty) (p q : Nat)
+    (hno : ∀ c ∈ S, ¬ (c.1 = p ∧ c.2.1 = q)) : r.valAt p q = Val.empty := by
+  rw [hv]
+  have : Range.lastAt S p q = none := by
+    unfold Range.lastAt
+    rw [Option.map_eq_none_iff, List.find?_eq_none]
+    intro c hc
+    simpa using hno c (List.mem_reverse.mp hc)
+  rw [this]; rfl
+
+
 /-- non-vacuity: a row header, an RK date cell, an ignorable record, a formula-error cell -/
 example :
     let ctx : Ctx := { formats := [0, 1], strings := [[104, 105]], is1904 := false }
@@ -90,6 +194,52 @@ example :
     · exact ⟨by decide, by decide, by decide⟩
     · exact ⟨⟨by decide, by simp [Content.WF]⟩, by decide, Or.inr (by simp [valueOf, isErrCode])⟩
     · exact ⟨⟨by decide, by simp [Content.WF]⟩, by decide, Or.inr (by simp [valueOf])⟩
+  · simp [specCells, valueOf, styled, rkIntSpec, isErrCode]
+
+/-- non-vacuity of the main theorem: a prologue with a skipped view block (containing a stray
+    BrtBeginSheetData) and a BrtWsFmtInfo, two rows at the far corner of the grid, all hypotheses hold and the
+    logical sheet has four cells -/
+example :
+    let ctx : Ctx := { formats := [0, 1], strings := [[104, 105]], is1904 := true }
+    let pre1 : List Seg := [.one ⟨.raw 0x81 [], false, 0⟩, .one ⟨.raw 0x93 [1, 2, 3], true, 2⟩]
+    let pre2 : List Seg :=
+      [.block ⟨.raw 0x85 [], true, 2⟩ [⟨.raw 0x89 [0, 0], false, 0⟩, ⟨.raw 0x91 [], false, 0⟩] ⟨.raw 0x86 [], false, 0⟩,
+       .one ⟨.raw 0x1E5 [1], false, 4⟩]
+    let data : List Framed :=
+      [⟨.row 1048574 [], false, 0⟩,
+       ⟨.cell ⟨16383, 1, .rk 176790, none⟩, true, 3⟩,
+       ⟨.raw 0x3FFF [1, 2, 3], false, 4⟩,
+       ⟨.row 1048575 [0, 0], true, 1⟩,
+       ⟨.cell ⟨3, 0, .err 7, some [0, 0]⟩, false, 0⟩,
+       ⟨.cell ⟨4, 0, .isst 0, none⟩, false, 2⟩,
+       ⟨.cell ⟨5, 0, .blank, none⟩, false, 0⟩,
+       ⟨.cell ⟨16383, 7, .str [0xFEFF, 65], some [9]⟩, true, 4⟩]
+    (∀ s ∈ pre1, s.OK 0x0094 bounds1) ∧ (∀ s ∈ pre2, s.OK 0x0091 bounds2) ∧ (∀ d ∈ data, d.item.OK ctx) ∧
+    GridSorted (specCells ctx (data.map (·.item)) 0) ∧ (specCells ctx (data.map (·.item)) 0).length = 4 := by
+  refine ⟨?_, ?_, ?_, ?_, ?_⟩
+  · intro s hs
+    simp only [List.mem_cons, List.not_mem_nil, or_false] at hs
+    rcases hs with rfl | rfl <;> exact ⟨⟨by decide, by decide⟩, by decide, by decide⟩
+  · intro s hs
+    simp only [List.mem_cons, List.not_mem_nil, or_false] at hs
+    rcases hs with rfl | rfl
+    · refine ⟨⟨by decide, by decide⟩, by decide, by decide, ⟨by decide, by decide⟩, ?_⟩
+      intro x hx
+      simp only [List.mem_cons, List.not_mem_nil, or_false] at hx
+      rcases hx with rfl | rfl <;> exact ⟨⟨by decide, by decide⟩, by decide⟩
+    · exact ⟨⟨by decide, by decide⟩, by decide, by decide⟩
+  · intro d hd
+    simp only [List.mem_cons, List.not_mem_nil, or_false] at hd
+    rcases hd with rfl | rfl | rfl | rfl | rfl | rfl | rfl | rfl
+    · exact ⟨by decide, by decide⟩
+    · exact ⟨⟨by decide, by simp [Content.WF]⟩, by decide, Or.inr (by simp [valueOf, styled, rkIntSpec])⟩
+    · exact ⟨by decide, by decide, by decide⟩
+    · exact ⟨by decide, by decide⟩
+    · exact ⟨⟨by decide, by simp [Content.WF]⟩, by decide, Or.inr (by simp [valueOf, isErrCode])⟩
+    · exact ⟨⟨by decide, by simp [Content.WF]⟩, by decide, Or.inr (by simp [valueOf])⟩
+    · exact ⟨⟨by decide, by simp [Content.WF]⟩, by decide, Or.inl rfl⟩
+    · exact ⟨⟨by decide, by simp [Content.WF]⟩, by decide, Or.inr (by simp [valueOf])⟩
+  · simp [GridSorted, specCells, valueOf, styled, rkIntSpec, isErrCode]
   · simp [specCells, valueOf, styled, rkIntSpec, isErrCode]
 
 end Xlsb
